@@ -8,6 +8,7 @@ import (
 	"os"
 	"strings"
 	"sync"
+	"time"
 
 	"github.com/emersion/go-ical"
 	"github.com/emersion/go-vcard"
@@ -99,6 +100,20 @@ type recorder struct {
 	mu    sync.Mutex
 	calls []string
 }
+
+// the recorder of the request being served travels in its context, so that one backend
+// value can serve several (also overlapping) requests
+type recKey struct{}
+
+func recOf(ctx context.Context, fallback *recorder) *recorder {
+	if r, ok := ctx.Value(recKey{}).(*recorder); ok {
+		return r
+	}
+	return fallback
+}
+
+// a modification time that is not in UTC and not in the process zone
+var modTime = time.Date(2024, 3, 31, 2, 30, 0, 0, time.FixedZone("X", 2*3600))
 
 func (r *recorder) add(name, a, b string) {
 	r.mu.Lock()
@@ -194,7 +209,7 @@ func (f *fsDouble) Stat(ctx context.Context, name string) (*webdav.FileInfo, err
 	if f.e.stat.nil {
 		return nil, nil
 	}
-	return &webdav.FileInfo{Path: name, Size: 7, IsDir: f.e.statDir}, nil
+	return &webdav.FileInfo{Path: name, Size: 7, ModTime: modTime, IsDir: f.e.statDir}, nil
 }
 
 func (f *fsDouble) ReadDir(ctx context.Context, name string, recursive bool) ([]webdav.FileInfo, error) {
@@ -209,7 +224,7 @@ func (f *fsDouble) ReadDir(ctx context.Context, name string, recursive bool) ([]
 }
 
 func (f *fsDouble) Create(ctx context.Context, name string, body io.ReadCloser, opts *webdav.CreateOptions) (*webdav.FileInfo, bool, error) {
-	f.rec.add("Create", name, "")
+	recOf(ctx, f.rec).add("Create", name, "")
 	if f.e.create.e.kind != "" {
 		return nil, false, f.e.create.e.err()
 	}
@@ -220,17 +235,17 @@ func (f *fsDouble) Create(ctx context.Context, name string, body io.ReadCloser, 
 }
 
 func (f *fsDouble) RemoveAll(ctx context.Context, name string, opts *webdav.RemoveAllOptions) error {
-	f.rec.add("RemoveAll", name, "")
+	recOf(ctx, f.rec).add("RemoveAll", name, "")
 	return f.e.removeall.err()
 }
 
 func (f *fsDouble) Mkdir(ctx context.Context, name string) error {
-	f.rec.add("Mkdir", name, "")
+	recOf(ctx, f.rec).add("Mkdir", name, "")
 	return f.e.mkdir.err()
 }
 
 func (f *fsDouble) Copy(ctx context.Context, name, dest string, options *webdav.CopyOptions) (bool, error) {
-	f.rec.add("Copy", name, dest)
+	recOf(ctx, f.rec).add("Copy", name, dest)
 	if f.e.copy.e.kind != "" {
 		return false, f.e.copy.e.err()
 	}
@@ -238,7 +253,7 @@ func (f *fsDouble) Copy(ctx context.Context, name, dest string, options *webdav.
 }
 
 func (f *fsDouble) Move(ctx context.Context, name, dest string, options *webdav.MoveOptions) (bool, error) {
-	f.rec.add("Move", name, dest)
+	recOf(ctx, f.rec).add("Move", name, dest)
 	if f.e.move.e.kind != "" {
 		return false, f.e.move.e.err()
 	}
@@ -302,7 +317,12 @@ func cardData(variant string) vcard.Card {
 }
 
 // encOutcome runs the real encoder on the data the double hands out.
-func (o objd) enc(card bool) string {
+func (o objd) enc(card bool) (out string) {
+	defer func() {
+		if r := recover(); r != nil {
+			out = "e"
+		}
+	}()
 	var w countWriter
 	var err error
 	if card {
@@ -310,6 +330,7 @@ func (o objd) enc(card bool) string {
 	} else {
 		err = ical.NewEncoder(&w).Encode(calData(o.variant))
 	}
+	_ = err
 	switch {
 	case err == nil:
 		return "k"
@@ -414,7 +435,7 @@ type calDouble struct {
 }
 
 func (b *calDouble) obj(o objd) *caldav.CalendarObject {
-	return &caldav.CalendarObject{Path: o.path, ETag: "e", ContentLength: 10, Data: calData(o.variant)}
+	return &caldav.CalendarObject{Path: o.path, ETag: "e", ContentLength: 10, ModTime: modTime, Data: calData(o.variant)}
 }
 func (b *calDouble) objs(l []objd) []caldav.CalendarObject {
 	var out []caldav.CalendarObject
@@ -430,7 +451,7 @@ func (b *calDouble) CalendarHomeSetPath(ctx context.Context) (string, error) {
 	return b.e.homeP, b.e.homeset.e.err()
 }
 func (b *calDouble) CreateCalendar(ctx context.Context, c *caldav.Calendar) error {
-	b.rec.add("CreateCalendar", c.Path, "")
+	recOf(ctx, b.rec).add("CreateCalendar", c.Path, "")
 	return b.e.creat.err()
 }
 func (b *calDouble) ListCalendars(ctx context.Context) ([]caldav.Calendar, error) {
@@ -474,7 +495,7 @@ func (b *calDouble) QueryCalendarObjects(ctx context.Context, path string, q *ca
 	return b.objs(b.e.queryV), nil
 }
 func (b *calDouble) PutCalendarObject(ctx context.Context, path string, cal *ical.Calendar, opts *caldav.PutCalendarObjectOptions) (*caldav.CalendarObject, error) {
-	b.rec.add("PutCalendarObject", path, "")
+	recOf(ctx, b.rec).add("PutCalendarObject", path, "")
 	if b.e.put.e.kind != "" {
 		return nil, b.e.put.e.err()
 	}
@@ -484,7 +505,7 @@ func (b *calDouble) PutCalendarObject(ctx context.Context, path string, cal *ica
 	return b.obj(b.e.putV), nil
 }
 func (b *calDouble) DeleteCalendarObject(ctx context.Context, path string) error {
-	b.rec.add("DeleteCalendarObject", path, "")
+	recOf(ctx, b.rec).add("DeleteCalendarObject", path, "")
 	return b.e.del.err()
 }
 
@@ -494,7 +515,7 @@ type cardDouble struct {
 }
 
 func (b *cardDouble) obj(o objd) *carddav.AddressObject {
-	return &carddav.AddressObject{Path: o.path, ETag: "e", ContentLength: 10, Card: cardData(o.variant)}
+	return &carddav.AddressObject{Path: o.path, ETag: "e", ContentLength: 10, ModTime: modTime, Card: cardData(o.variant)}
 }
 func (b *cardDouble) objs(l []objd) []carddav.AddressObject {
 	var out []carddav.AddressObject
@@ -529,11 +550,11 @@ func (b *cardDouble) GetAddressBook(ctx context.Context, path string) (*carddav.
 	return &carddav.AddressBook{Path: b.e.getcollP, Name: "n", Description: "d"}, nil
 }
 func (b *cardDouble) CreateAddressBook(ctx context.Context, ab *carddav.AddressBook) error {
-	b.rec.add("CreateAddressBook", ab.Path, "")
+	recOf(ctx, b.rec).add("CreateAddressBook", ab.Path, "")
 	return b.e.creat.err()
 }
 func (b *cardDouble) DeleteAddressBook(ctx context.Context, path string) error {
-	b.rec.add("DeleteAddressBook", path, "")
+	recOf(ctx, b.rec).add("DeleteAddressBook", path, "")
 	return b.e.delbook.err()
 }
 func (b *cardDouble) GetAddressObject(ctx context.Context, path string, req *carddav.AddressDataRequest) (*carddav.AddressObject, error) {
@@ -558,7 +579,7 @@ func (b *cardDouble) QueryAddressObjects(ctx context.Context, path string, q *ca
 	return b.objs(b.e.queryV), nil
 }
 func (b *cardDouble) PutAddressObject(ctx context.Context, path string, card vcard.Card, opts *carddav.PutAddressObjectOptions) (*carddav.AddressObject, error) {
-	b.rec.add("PutAddressObject", path, "")
+	recOf(ctx, b.rec).add("PutAddressObject", path, "")
 	if b.e.put.e.kind != "" {
 		return nil, b.e.put.e.err()
 	}
@@ -568,6 +589,6 @@ func (b *cardDouble) PutAddressObject(ctx context.Context, path string, card vca
 	return b.obj(b.e.putV), nil
 }
 func (b *cardDouble) DeleteAddressObject(ctx context.Context, path string) error {
-	b.rec.add("DeleteAddressObject", path, "")
+	recOf(ctx, b.rec).add("DeleteAddressObject", path, "")
 	return b.e.del.err()
 }
